@@ -794,6 +794,37 @@ pub fn run(ctx: &Ctx, report: &mut Report) {
         });
     });
 
+    // ---- long components: lengths around the 8-bit, 16-bit and 17-bit boundaries in each of the four positions
+    // (case_seed = position * 100 + index of the length)
+    ctx.fixed(report, "rid-long", |rep| {
+        const LENS: [usize; 12] = [254, 255, 256, 257, 4096, 65_533, 65_534, 65_535, 65_536, 65_537, 70_000, 131_080];
+        let mut env = Env::new(rep, "rid-long");
+        for pos in 0..4 {
+            for (li, len) in LENS.iter().enumerate() {
+                let seed = (pos * 100 + li) as u64;
+                if replay_seed.map(|o| o != seed).unwrap_or(false) {
+                    continue;
+                }
+                env.seed = seed;
+                let mut r = Rng::new(seed);
+                let mut c = ["svc".to_string(), "inst-1".to_string(), "kind".to_string(), "Loc_1.a".to_string()];
+                let (first, rest): (&[u8], &[u8]) = match pos {
+                    0 | 2 => (LOWER, LOWER_DIGIT_DASH),
+                    1 => (LOWER_DIGIT, LOWER_DIGIT_DASH),
+                    _ => (LOCATOR, LOCATOR),
+                };
+                // the long component, the following ones a little longer than default so that truncated offsets show
+                c[pos] = word(&mut r, first, rest, *len, *len);
+                let joined = format!("ri.{}.{}.{}.{}", c[0], c[1], c[2], c[3]);
+                env.rep.distinct.insert(fnv(&format!("long:{}:{}", pos, len)));
+                env.check::<ResourceIdentifier>(&joined);
+                env.components([&c[0], &c[1], &c[2], &c[3]]);
+                env.rep.cell(&format!("long/rid/position-{}", pos));
+            }
+        }
+        env.flush();
+    });
+
     // ---- random: valid values, one-edit mutants, long hostile strings
     ctx.cases(report, "token-random", ctx.n(20_000, 2_000_000), |seed, rep| {
         let mut r = Rng::new(seed);
